@@ -9,7 +9,9 @@ props = [json.loads(l) for l in open(os.path.join(ROOT, "properties.jsonl"))]
 MATCHER_NOTE = ("Trusted: Lean kernel; axioms propext/Classical.choice/Quot.sound; translator (constants, presets, matrix layout, and the cell functions of the optimal matcher - "
                 "next_m_cell, p_score, MatrixCell::set/get, UNMATCHED, the first-row cell, the prefix bonus - translated expression by expression into Gen/Optimal.lean; the branches of the scoring loop of "
                 "calculate_score translated by symbolic execution into Gen/ScoreLoop.lean); harness+driver. "
-                "Modelled, not verified: the control flow of the matcher (tied by the correspondence run: corpus + seeded random + exhaustive small domain + "
+                "The dispatch of the three *_impl entry points of lib.rs (length guards, representation match, one-character case, prefilter call and its ?, contiguous shortcut, window arguments of every callee) "
+                "is translated statement by statement into Gen/Dispatch.lean on every run and proved to be the model's fuzzyMatch / fuzzyGreedy / substringMatch (companion files <ID>_DispatchTranslated). "
+                "Modelled, not verified: the control flow inside the routines the dispatch calls (tied by the correspondence run: corpus + seeded random + exhaustive small domain + "
                 "size-limit shapes, every case on a fresh, a used and a poisoned matcher). The optimal matcher is modelled twice: as the naive two-matrix recurrence (optimalDP) and at code level "
                 "(Model/OptImpl.lean: one score row shifted by the row offsets, UNMATCHED sentinels, two-bit back-pointer segments, traceback; loops transcribed by hand zip for zip, u16/u8 arithmetic "
                 "as Nat with narrowing casts as mod); the two are proved equal for every input and every prior content of the scratch memory (Props/C04_Compressed.lean), and the code-level model is "
